@@ -460,14 +460,8 @@ fn run_inner(c: &[u64], oc: bool) -> Vec<i128> {
     out
 }
 
-static mut INSTALLED: bool = false;
 pub fn run_oc(c: &[u64], oc: bool) -> Vec<i128> {
-    unsafe {
-        if !INSTALLED {
-            softcpu::install();
-            INSTALLED = true;
-        }
-    }
+    softcpu::install_once();
     run_inner(c, oc)
 }
 pub fn run(c: &[u64]) -> Vec<i128> {
